@@ -28,7 +28,9 @@ import (
 
 func extras() []core.Extra {
 	return []core.Extra{
-		c17.Utf8TieExtra(), // the shared unicode/utf8 model, exhaustively against the standard library
+		// the shared unicode/utf8 model, exhaustively against the standard library: runs in every C17
+		// check; here in thorough (and on drift, through Escalate) only, to keep quick short under load
+		func() core.Extra { e := c17.Utf8TieExtra(); e.Tiers = []string{"thorough"}; return e }(),
 		{Name: "all-scalars-and-escapes", Run: extraScalars},
 		{Name: "malformed-exhaustive", Run: extraMalformed},
 		{Name: "concurrent-use", Run: extraParallel},
@@ -218,6 +220,18 @@ func extraScalars(ctx *core.Ctx) (int, string, []core.ExtraFailure) {
 		chunk("unicode", "escapes", 0x20000, 0xeffff, " lower")
 		chunk("unicode", "escapes", 0xfffc0000, 0xffffffff, " upper")
 		chunk("unicode", "escapes", 0x7ffe0000, 0x8001ffff, " upper")
+	}
+	if ctx.Tier != "thorough" && ctx.Escalate <= 1 {
+		// quick: every range of the small value spaces, and a quarter of the big ones (which quarter
+		// rotates with the seed; thorough and drift runs do all of them)
+		var keep []rng
+		for i, r := range rs {
+			big := r.hi-r.lo >= 0x3fff && (r.k == "unicode" || (r.k == "utf16" && r.op == "scalars"))
+			if !big || (uint64(i)+ctx.Seed)%4 == 0 || r.lo == 0 || (r.lo <= 0x10000 && r.hi >= 0xd800) || r.hi >= 0x10ffff {
+				keep = append(keep, r)
+			}
+		}
+		rs = keep
 	}
 	ops := make([]digOp, len(rs))
 	evals := 0
@@ -458,8 +472,14 @@ func extraHuge(ctx *core.Ctx) (int, string, []core.ExtraFailure) {
 		for _, k := range []string{"utf16", "unicode"} {
 			w := escWidth[k]
 			ds := []int{-4, -3, -2, -1, 0, 1, 2, 3, 4}
-			if k == "unicode" && !full {
-				ds = []int{-1, 0}
+			if k == "unicode" {
+				ds = []int{-1, 0, 1} // UnicodeFormat allocates once; the marks matter for the append-grown Utf16Format
+			}
+			if !full {
+				ds = []int{-2, -1, 0, 1}
+				if k == "unicode" {
+					ds = []int{-1}
+				}
 			}
 			for _, d := range ds {
 				n := m/w + d
@@ -534,5 +554,5 @@ func extraHuge(ctx *core.Ctx) (int, string, []core.ExtraFailure) {
 	if oerr != nil {
 		fails = append(fails, core.ExtraFailure{Failure: core.Failure{Key: "huge-oracle", Desc: "oracle not runnable: " + oerr.Error()}, NoInput: true})
 	}
-	return total, fmt.Sprintf("%d inputs whose UnicodeFormat/Utf16Format output crosses %d mark(s) (1 MiB%s) with a supplementary rune at each of the +-4 escape positions around the mark: output vs reference formatter and vs the Lean model", total, len(markSet), map[bool]string{true: ", 2 MiB, 4 MiB and every append re-allocation point of 64 KiB / 1 MiB initial capacity up to 8 MiB", false: ""}[full]), fails
+	return total, fmt.Sprintf("%d inputs whose UnicodeFormat/Utf16Format output crosses %d mark(s) (1 MiB%s) with a supplementary rune at each escape position in a window around the mark (quick -2..+1, otherwise +-4): output vs reference formatter and vs the Lean model", total, len(markSet), map[bool]string{true: ", 2 MiB, 4 MiB and every append re-allocation point of 64 KiB / 1 MiB initial capacity up to 8 MiB", false: ""}[full]), fails
 }
